@@ -26,11 +26,12 @@ import (
 	"fmt"
 	"os"
 	"os/exec"
-	"sort"
 	goruntime "runtime"
+	"sort"
 	"strconv"
 	"strings"
 	"sync"
+	"time"
 
 	"github.com/onflow/cadence/common"
 	"github.com/onflow/cadence/runtime"
@@ -45,7 +46,7 @@ func init() {
 		concChild()
 		os.Exit(0)
 	}
-	hx.Register(&hx.Stream{Name: "conc", Gen: concGen, Exec: concExec, Parallel: true})
+	hx.Register(&hx.Stream{Name: "conc", Gen: concGen, Exec: host.Robust(concExec, 120*time.Second, 900*time.Second), Parallel: true, Timeout: host.RobustTimeout})
 }
 
 func concGen(c *hx.Ctx) {
